@@ -166,10 +166,17 @@ func genItem(r *sx.Rng, list string, wantValid bool) item {
 			}
 		case c < 82:
 			it.field = sx.Pick(r, strFields)
+			if r.Chance(1, 8) {
+				it.field = "key" // a key spelled as a filter
+			}
 			it.isStr = true
 			it.text = safeStr(r, 1+r.Intn(24))
 			if it.field == "path" || it.field == "dir" || it.field == "exe" {
 				it.text = "/" + it.text
+			}
+			if r.Chance(1, 6) {
+				// blanks at either end or inside: the bytes asked for are the bytes to encode
+				it.text = sx.Pick(r, []string{" ", "", "\t", "  "}) + it.text + sx.Pick(r, []string{"", " ", " x", "\t"})
 			}
 			if r.Chance(1, 40) {
 				it.text = "/" + safeStr(r, 4090+r.Intn(10))
@@ -607,6 +614,23 @@ func modeBuild(seed uint64, n int, out *sx.Out) {
 			continue
 		}
 		s := genSpec(r)
+		if i < 16 {
+			// every run: the field table one short of full, exactly full and one over, with and without a key (the key is a field)
+			s = spec{list: "exit", action: "always", scAll: true, inDomain: true}
+			total := []int{62, 63, 64, 65}[i%4]
+			if i%8 >= 4 {
+				s.keys = []string{"k" + strconv.Itoa(i)}
+				total--
+			}
+			for k := 0; k < total; k++ {
+				f := []string{"pid", "ppid", "a0", "a1", "a2", "a3", "devmajor", "devminor", "inode"}[k%9]
+				op := allOps[(k+i)%len(allOps)]
+				if f == "inode" {
+					op = allOps[(k+i)%2] // inode takes = and != only
+				}
+				s.items = append(s.items, item{field: f, op: op, text: strconv.Itoa(k + 1), num: uint32(k + 1)})
+			}
+		}
 		line := s.line(r)
 		// Parse / Build / ToCommandLine must be functions of their input: half of the rules are preceded by a near copy
 		if i%2 == 1 {
@@ -1000,6 +1024,29 @@ func modeTotal(seed uint64, n int, out *sx.Out) {
 
 // ---------- flag parsing ----------
 
+// backslashJoin writes the words separated by blanks, every byte that is not plainly literal escaped with a backslash
+// (no quotes).  Words that cannot be written that way (empty, containing a newline) make it give up.
+func backslashJoin(toks []string) (string, bool) {
+	var sb strings.Builder
+	for i, t := range toks {
+		if t == "" || strings.ContainsAny(t, "\n'\"") {
+			return "", false
+		}
+		if i > 0 {
+			sb.WriteByte(' ')
+		}
+		for j := 0; j < len(t); j++ {
+			c := t[j]
+			plain := c >= 'a' && c <= 'z' || c >= 'A' && c <= 'Z' || c >= '0' && c <= '9' || strings.IndexByte("_/.,=:+-", c) >= 0
+			if !plain {
+				sb.WriteByte('\\')
+			}
+			sb.WriteByte(c)
+		}
+	}
+	return sb.String(), true
+}
+
 type fitem struct {
 	flag  string // "" = stray word
 	value string
@@ -1048,6 +1095,8 @@ func modeFlags(seed uint64, n int, out *sx.Out) {
 		"p": {"r", "rwxa", "wa", "q", "", "rr"},
 	}
 	strays := []string{"foo", "bar=1", "exit,always", "-", "uid=0", "", "", " ", "''"}
+	vals["w"] = append(vals["w"], "/srv/R&D", "/opt/run$1", "/etc/passwd\r", "/a\\b", "/with space/x", "/nb\u00a0sp")
+	vals["k"] = append(vals["k"], "k&1", "a b", "tab\there", "vt\vx")
 	for i := 0; i < n; i++ {
 		out.Begin(map[string]interface{}{"mode": "modeFlags", "case": i})
 		r := sx.Fork(seed, uint64(i)+4<<32)
@@ -1138,6 +1187,12 @@ func modeFlags(seed uint64, n int, out *sx.Out) {
 			}
 		}
 		line := shellquote.Join(toks...)
+		if r.Chance(1, 4) {
+			// the same words written with backslash escapes only, no quote character anywhere on the line
+			if l, ok := backslashJoin(toks); ok {
+				line = l
+			}
+		}
 		back, serr := shellquote.Split(line)
 		same := serr == nil && len(back) == len(toks)
 		if same {
